@@ -145,6 +145,8 @@ def _replay(mod, path, tier, seed):
     if prep:
         prep(ctx)
     sentinel.install(per_thread=getattr(mod, 'PER_THREAD_STEPS', False))
+    if witness.get('debug_logging'):
+        core.enable_debug_logging(ctx)
     case = witness.get('case')
     if case is None:
         print('replay file carries no case')
